@@ -3,10 +3,33 @@
 
 mod channel;
 mod halflock;
+mod registry;
 mod sched;
 mod trace;
 
+use std::alloc::{GlobalAlloc, Layout, System};
 use std::collections::HashMap;
+
+/// Counts allocator traffic of code under test inside simulated deliveries (C03).
+struct CountingAlloc;
+
+unsafe impl GlobalAlloc for CountingAlloc {
+    unsafe fn alloc(&self, l: Layout) -> *mut u8 {
+        sched::count_alloc(false);
+        System.alloc(l)
+    }
+    unsafe fn dealloc(&self, p: *mut u8, l: Layout) {
+        sched::count_alloc(true);
+        System.dealloc(p, l)
+    }
+    unsafe fn realloc(&self, p: *mut u8, l: Layout, n: usize) -> *mut u8 {
+        sched::count_alloc(false);
+        System.realloc(p, l, n)
+    }
+}
+
+#[global_allocator]
+static ALLOC: CountingAlloc = CountingAlloc;
 
 pub struct Args {
     kv: HashMap<String, String>,
@@ -57,6 +80,7 @@ fn main() {
     let code = match argv[1].as_str() {
         "halflock" => halflock::main(&args),
         "channel" => channel::main(&args),
+        "registry" => registry::main(&args),
         other => {
             eprintln!("unknown component {}", other);
             2
